@@ -397,21 +397,34 @@ def lookup_ord(prog, func, line, op):
 
 # ---------------------------------------------------------------------------
 # loops that are a spelled-out `set.extend(range)`
-def loop_exits_only_at_head(body, h):
-    """the loop with head h (a block calling next()) is left only at the head or at the block that
-    matches on next()'s result: it always runs until the iterator is exhausted"""
+def loop_exits_only_at_head(body, h, eng=None, func=None):
+    """the loop with head h is left only where it tests its iterator / its guard (at the head, or at
+    the block that matches on next()'s result): it always runs until the iteration is exhausted.  An
+    exit from the middle of the body is accepted when the engine showed, every time it was taken, that
+    the element in hand is the last one of the range a counting loop walks (`if y == last { break }`);
+    such an iteration is reported to the rules as one more iteration segment."""
     loops = body.loops()[0]
     if not isinstance(h, int) or h not in loops:
         return False
-    blocks = loops[h]
-    hs = body.succs(h)
-    ok_src = {h} | ({hs[0]} if body.blocks[h]['term']['k'] == 'call' and len(hs) == 1 and body.blocks[hs[0]]['term']['k'] == 'switch' else set())
-    for b in blocks:
-        if b in ok_src:
+    if eng is None:
+        blocks = loops[h]
+        hs = body.succs(h)
+        ok_src = {h} | ({hs[0]} if body.blocks[h]['term']['k'] == 'call' and len(hs) == 1 and body.blocks[hs[0]]['term']['k'] == 'switch' else set())
+        for b in blocks:
+            if b in ok_src:
+                continue
+            for s2 in body.succs(b):
+                if s2 not in blocks and not body.blocks[s2].get('cleanup') and body.blocks[s2]['term']['k'] != 'unreachable':
+                    return False
+        return True
+    for (b, s2), hs in eng.exit_edges(body).items():
+        if h not in hs:
             continue
-        for s2 in body.succs(b):
-            if s2 not in blocks and not body.blocks[s2].get('cleanup') and body.blocks[s2]['term']['k'] != 'unreachable':
-                return False
+        cls = eng.exit_class.get((func, h, b, s2))
+        if cls is None:
+            continue          # never taken on any abstract path
+        if cls != {True}:
+            return False
     return True
 
 
@@ -430,7 +443,7 @@ def range_insert_loops(ctx, sr, target=('S', 'dirty')):
     out = set()
     for (func, head), sgs in by.items():
         body = prog.bodies.get(func)
-        if body is None or not loop_exits_only_at_head(body, head):
+        if body is None or not loop_exits_only_at_head(body, head, sr['engine'], func):
             continue
         ok = True
         for sg in sgs:
@@ -479,7 +492,7 @@ def cell_store_loops(ctx, sr, touch=False):
         if body is None:
             continue
         if isinstance(head, int):
-            if not loop_exits_only_at_head(body, head):
+            if not loop_exits_only_at_head(body, head, sr['engine'], func):
                 continue
         elif not (isinstance(head, tuple) and head and head[0] == 'for_each'):
             continue
@@ -539,7 +552,7 @@ def row_touch_loops(ctx, sr):
         if body is None:
             continue
         if isinstance(head, int):
-            if not loop_exits_only_at_head(body, head):
+            if not loop_exits_only_at_head(body, head, sr['engine'], func):
                 continue
         elif not (isinstance(head, tuple) and head and head[0] == 'for_each'):
             continue
